@@ -114,7 +114,7 @@ func TestC01(t *testing.T) {
 	}
 	groups := map[string]*group{}
 	r := evid.Rand(1)
-	n := evid.N(400, 1500)
+	n := evid.N(400, 2000)
 	for i := 0; i < n; i++ {
 		src := drawSource(r)
 		hist, ok := src.Next(r)
